@@ -48,6 +48,13 @@ pub fn schedule(g: &GenCfg, stalls: bool) -> BoxedStrategy<Vec<Seg>> {
         out
     });
     let base = prop_oneof![1 => Just(vec![]), 5 => dense, 3 => sparse, 2 => mid];
+    // one schedule in five runs its fair tail with a quantum of 1-5 points instead of 40
+    let base = (base, prop_oneof![4 => Just(0u8), 1 => 1u8..6]).prop_map(|(mut b, q)| {
+        if q > 0 {
+            b.push(Seg { run: crate::sched::QUANTUM, pick: q, stall_ms: 0 });
+        }
+        b
+    });
     if !stalls {
         return base.boxed();
     }
